@@ -11,6 +11,7 @@ From SU.Spec Require Import GlideSpec.
 From SU.Proofs Require Import GlideCoeffProofs GlideFilterProofs.
 From SU.Spec Require Import RunSpec.
 From SU.Proofs Require Import GlideExtraProofs.
+From SU.Proofs Require Import GlideKillers.
 Open Scope R_scope.
 
 (** for every sample rate in [100 Hz, 48 kHz] and every schedule of set_time calls with
@@ -127,6 +128,35 @@ Theorem C13_hull_constant_needed : ~ (forall p kappa lo hi x x1 y1 out,
   lo - E <= out <= hi + E).
 Proof. exact hull_real_15_false. Qed.
 
+(** the two run functions used by the statements (states / outputs) are the same run *)
+Theorem C13_after_outputs_process : forall g x ops,
+  glide_step g (GProcess x) = Some (fst (glide_process g x)) /\
+  glide_after g (GProcess x :: ops) = glide_after (fst (glide_process g x)) ops /\
+  glide_run (Some g) (GProcess x :: ops) = glide_run (Some (fst (glide_process g x))) ops /\
+  glide_outputs g (GProcess x :: ops)
+  = option_map (cons (snd (glide_process g x))) (glide_outputs (fst (glide_process g x)) ops) /\
+  coeffs_used g (GProcess x :: ops) = d_c (g_lpf g) :: coeffs_used (fst (glide_process g x)) ops /\
+  g_lpf (fst (glide_process g x)) = fst (df1_run (g_lpf g) x) /\
+  snd (glide_process g x) = snd (df1_run (g_lpf g) x) /\
+  g_cached_t (fst (glide_process g x)) = g_cached_t g.
+Proof. exact after_outputs_process. Qed.
+
+(** same for set_time *)
+Theorem C13_after_outputs_set_time : forall g t ops,
+  glide_step g (GSetTime t) = glide_set_time g t /\
+  glide_after g (GSetTime t :: ops)
+  = match glide_set_time g t with Some g' => glide_after g' ops | None => None end /\
+  glide_outputs g (GSetTime t :: ops)
+  = match glide_set_time g t with Some g' => glide_outputs g' ops | None => None end.
+Proof. exact after_outputs_set_time. Qed.
+
+(** one output per process call, defined exactly when the state run is *)
+Theorem C13_outputs_defined_iff_after : forall ops g,
+  (glide_outputs g ops = None <-> glide_after g ops = None) /\
+  (forall ys, glide_outputs g ops = Some ys ->
+     length ys = length (filter (fun o => match o with GProcess _ => true | _ => false end) ops)).
+Proof. exact outputs_defined_iff_after. Qed.
+
 Print Assumptions C13_coeffs_good.
 Print Assumptions C13_one_step.
 Print Assumptions C13_hull.
@@ -137,3 +167,6 @@ Print Assumptions C13_first_sample_hull.
 Print Assumptions C13_first_sample_crossing_witness.
 Print Assumptions C13_settles_sharp.
 Print Assumptions C13_hull_constant_needed.
+Print Assumptions C13_after_outputs_process.
+Print Assumptions C13_after_outputs_set_time.
+Print Assumptions C13_outputs_defined_iff_after.
